@@ -1,5 +1,6 @@
 import Hgxv.Model.C02
 import Hgxv.Proofs.C02Total
+import Hgxv.Proofs.C02Found
 /-! # C02 - property theorems (DirectedHypergraph faithfully stores (source set, target set) hyperedges)
 
 Model: `Hgxv/Model/C02.lean` (concrete `Store` mirroring `core/directed_hypergraph.py` after the `fix:` commits
@@ -55,6 +56,51 @@ the arguments of any other call, nor about acceptance). -/
 
 def C02.Reachable (s : Store) : Prop :=
   ∃ (cs : List Cmd) (slot : Nat), (∀ c ∈ cs, c.WF) ∧ get? (runCmds [] cs) slot = some s
+
+/-- **An inserted hyperedge is found under every listing** (strengthening round c: seeded change C02-c2 made `add_edge`
+file a hyperedge under another key than the one the other entry points compute).  `add_edge` canonicalises with
+`canonAdd` (a bare node stands for a one-element side), every other entry point with `canonStrict`.  For EVERY store
+and every accepted `add_edge(e, w, md)`: whatever listing `(S', T')` of the same source set and the same target set is
+used afterwards (any order; the collection TYPE is not a notion of the model: the harness hands the same node set
+over as tuple, list, set, frozenset, range, generator, dict keys, array), the canonical key is the one `add_edge`
+used, `check_edge` answers True, `get_edge_metadata` returns the metadata just given (`{}` if none), `remove_edge`,
+`set_edge_metadata` and an admissible `set_weight` are accepted, and (store satisfying the invariant, well-formed
+hyperedge: the quantifier) `get_weight` answers. -/
+theorem C02_inserted_is_found (s : Store) (e : RawEdge) (w : Option Int) (md : Option Meta)
+    (hok : (addEdge s e w md).2 = .ok) (S' T' : List Node) (hS : S'.Perm e.src.toList) (hT : T'.Perm e.tgt.toList) :
+    canonStrict (.ofLists S' T') = some (canonAdd e) ∧
+    checkEdge (addEdge s e w md).1 (.ofLists S' T') = some true ∧
+    edgeMeta (addEdge s e w md).1 (.ofLists S' T') = some (md.getD []) ∧
+    (removeEdge (addEdge s e w md).1 (.ofLists S' T')).2 = .ok ∧
+    (∀ md', (setEdgeMeta (addEdge s e w md).1 (.ofLists S' T') md').2 = .ok) ∧
+    (∀ w', ((addEdge s e w md).1.weighted = true ∨ w' = one) →
+      (setWeight (addEdge s e w md).1 (.ofLists S' T') w').2 = .ok) ∧
+    (Inv s → RawWF e → (getWeight (addEdge s e w md).1 (.ofLists S' T')).isSome = true) := by
+  have hc := canonStrict_of_perm e S' T' hS hT
+  unfold addEdge at hok ⊢
+  obtain ⟨id, hid, hmd⟩ := addEdgeKey_found s (canonAdd e) w md hok
+  refine ⟨hc, ?_, ?_, ?_, ?_, ?_, ?_⟩
+  · simp [checkEdge, hc, has, hid]
+  · simp [edgeMeta, hc, metaOfKey, hid, hmd]
+  · simp [removeEdge, hc, removeEdgeKey, hid]
+  · intro md'; simp [setEdgeMeta, hc, hid]
+  · intro w' hw
+    unfold setWeight
+    rcases hw with hw | hw
+    · simp [hw, hc, hid]
+    · simp [hw, hc, hid]
+  · intro h he
+    have hi := addEdgeKey_inv s (canonAdd e) w md (keyWF_canonAdd e he) h
+    have := hi.weights_of_edge _ id hid
+    simp [getWeight, hc, weightOfKey, hid, this]
+
+/-- non-vacuity: `((3,1), 2)` (bare-node target) inserted with weight 2 and metadata; found as `((1,3),(2,))`, its reverse
+    is absent, and it can be removed under the other listing -/
+example : let s0 : Store := { weighted := true }
+    let s1 := (addEdge s0 ⟨.nodes [3, 1], .scalar 2⟩ (some 8) (some [(2, 3)])).1
+    checkEdge s1 (.ofLists [1, 3] [2]) = some true ∧ getWeight s1 (.ofLists [3, 1] [2]) = some 8 ∧
+    edgeMeta s1 (.ofLists [1, 3] [2]) = some [(2, 3)] ∧ checkEdge s1 (.ofLists [2] [1, 3]) = some false ∧
+    (removeEdge s1 (.ofLists [1, 3] [2])).2 = .ok := by decide
 
 /-- **Invariant for every history.**  After every prefix of every history, every object satisfies `Inv`:
 `_edge_list` and `_reverse_edge_list` are inverse bijections between canonical well-formed keys (sorted, duplicate-free,
